@@ -108,6 +108,7 @@ def worker(args):
             if it == 0: part.sample({"part": "hover/signatureHelp", "text": text[:300], "calls": len(P.calls)}, 1)
         except (ServerDied, Timeout, FrameError) as e:
             feat.died(part, e, "hover/signatureHelp request", {"kind": "doc", "text": text}, sess)
+    feat.report(part)
     sess.kill()
     return part
 
